@@ -1916,7 +1916,7 @@ func (p *Parser) parseConditionVarOperator(expression *ast.OperatorExpression) e
 			} else if p.curToken.Type == token.RPAREN {
 				if numOpenParens == 0 {
 					p.nextToken()
-					if len(parts) > 1 {
+					if strings.Contains(strings.Join(parts, " "), " ") {
 						parts = append(parts, ")")
 						parts = append([]string{"("}, parts...)
 					}
